@@ -583,6 +583,15 @@ var nonRegisteredOnnxOps = []string{"onnx::Relu", "aten::Softmax", "mylib::Relu"
 	"Compress", "EyeLike", "RandomNormal", "RandomUniform", "Multinomial", "ThresholdedRelu", "Shrink", "MeanVarianceNormalization", "Celu", "GreaterOrEqual ", "Lessorequal", "Matmul", "GEMM", "lstm", "Gru", "Rnn", "ReduceMaxx", "Relu6", "PReLU",
 	"LogSoftMax", "SoftMax", "ArgMin", "Unique", "ReverseSequence", "SequenceAt", "ConcatFromSequence", "SplitToSequence", "Det", "NegativeLogLikelihoodLoss", "SoftmaxCrossEntropyLoss", "Trilu", "HardSwish", "Bernoulli", "GridSample", "Optional", "LayerNormalization"}
 
+// names of unusual length and content: 1..3 around every power of two up to 4096 plus 65537 characters (a message that
+// abbreviates a long name must still be the unsupported-operator error), format verbs, NUL, look-alike characters
+func init() {
+	for _, n := range []int{15, 16, 17, 31, 32, 33, 63, 64, 65, 66, 127, 128, 129, 255, 256, 257, 511, 512, 513, 1023, 1024, 1025, 4095, 4096, 4097, 65537} {
+		nonRegisteredOnnxOps = append(nonRegisteredOnnxOps, strings.Repeat("R", n), "Relu"+strings.Repeat("x", n-4))
+	}
+	nonRegisteredOnnxOps = append(nonRegisteredOnnxOps, "%s", "%v%d", "Relu%s", "%!s(MISSING)", "Relu\x00", "\x00Relu", "Re\x00lu", "Relu\n", "Relu\u00a0", "\u200bRelu", "Ｒelu")
+}
+
 func checkC15(c *hx.Checker) {
 	c.Rule = "names from opset13.GetOpNames() (must be exactly the registered set); per operator: every input count 0..max+2 (Concat 0..5) x dtype placement (the 14 ONNX element types plus Go-native int / uint tensors, which no gate may accept): full product of the dtypes over all positions when max<=2, else every homogeneous row and every single- and two-position deviation from every homogeneous allowed row x nil at every position; " +
 		"every homogeneous list additionally with one and the same tensor object at every position, as a sub-slice of a longer array (spare capacity holding other tensors) and as the second request gated by one operator object after a longer / shorter / over-long / wrongly typed / empty first request; unknown names: 120 non-registered ONNX operator names, case/space variants, empty string; lookup independence: for 22 (operator, attribute set A, attribute set B) specs ALL interleavings of 2 lookups (20) and of 3 lookups (1680) of <Get, Init, Apply>, each Apply compared with its isolated result. " +
